@@ -71,6 +71,9 @@ def run(ctx) -> None:
     ctx.rule("C04.R3-new-wins", "override_object lets the higher layer win when it is not None")
     ctx.rule("C04.R4-user-variables", "user variables are injected as platform-stage variables of every platform and stage")
     ctx.rule("C04.R5-undefined-variable-is-error", "an unknown variable is swallowed only under ignore_errors or for 'replica' in primitive mode")
+    ctx.rule("C04.R8-fixpoint-rescans", "interpolate rescans the whole string after every substitution: the scan position is advanced "
+                                        "only past a reference that is left unresolved on purpose (ignore_errors, primitive mode, "
+                                        "symbol-table routes), and only by one character")
     ctx.rule("C04.R6-typed-options", "every option the schema admits as bool/int/float has a string-safe converter")
     ctx.rule("C04.R7-resolver-cache-transparent", "the resolver's cache cannot return a value computed from an older description "
                                                   "(write => invalidate, alias hand-out, key coverage; the C08 analysis re-used)")
@@ -298,6 +301,35 @@ def run(ctx) -> None:
         and source.src(stbu[0].body).replace('"', "'") in ("set(['replica'])", "{'replica'}") and source.src(stbu[0].orelse) in ("set()",)
     ctx.ob("C04.R5-undefined-variable-is-error", stbu[0] if stbu else it, ok, "only 'replica' may stay unknown, and only for primitive graphs" if ok else
            "safe_to_be_unknown is no longer {'replica'} for primitive graphs / empty otherwise")
+    # ---------------- R8 -------------------------------------------------------------------------------
+    ust = match.test_nodes(c5, lambda t: "T" if (match.compare_parts(t) and isinstance(match.compare_parts(t)[0], ast.Name)
+                                                 and match.compare_parts(t)[0].id == "use_symbol_table" and isinstance(match.compare_parts(t)[1], ast.Is)
+                                                 and isinstance(match.compare_parts(t)[2], ast.Constant) and match.compare_parts(t)[2].value is False) else None)
+    adv = [n for n in c5.nodes if n.kind == "stmt" and isinstance(n.ast, (ast.Assign, ast.AugAssign))
+           and any(isinstance(t, ast.Name) and t.id == "search_from" for t in (n.ast.targets if isinstance(n.ast, ast.Assign) else [n.ast.target]))
+           and not (isinstance(n.ast, ast.Assign) and isinstance(n.ast.value, ast.Constant) and n.ast.value.value == 0)]
+    ctx.floor("C04.R8-fixpoint-rescans", len(adv), 2, "advances of the scan position in interpolate")
+    tol = ign + prim + ust
+    for a in adv:
+        ok_guard = bool(tol) and match.only_via_edges(c5, a, tol)
+        v = a.ast.value
+        ok_val = isinstance(a.ast, ast.Assign) and isinstance(v, ast.BinOp) and isinstance(v.op, ast.Add) \
+            and source.src(v.left) == "match.start()" and isinstance(v.right, ast.Constant) and v.right.value == 1
+        ctx.ob("C04.R8-fixpoint-rescans", a.ast, ok_guard and ok_val,
+               "the scan position moves one character past a reference that is deliberately left unresolved" if ok_guard and ok_val else
+               ("the scan position is advanced after a successful substitution / without a tolerance guard: a reference that only "
+                "comes into being through the substitution and starts to its left (%%(%%(mode)s_opts)s -> %%(fast_opts)s) is never "
+                "looked at again - a defined variable stays in the text and an undefined one is not reported" if not ok_guard else
+                "the scan position jumps by %s instead of one character: references inside the skipped text are not resolved" % short(v, 40)),
+               construct=short(a.ast, 60) + " <- tolerance guard, +1")
+    # the loops end only when a scan from the current position finds nothing
+    loops = [n for n in source.walk_own(it) if isinstance(n, ast.While) and isinstance(n.test, ast.Constant) and n.test.value is True]
+    for lp in loops:
+        brk = [b for b in ast.walk(lp) if isinstance(b, ast.Break)]
+        okb = bool(brk) and all(isinstance(source.parent(b), ast.If) and source.src(source.parent(b).test) == "not matches" for b in brk)
+        ctx.ob("C04.R8-fixpoint-rescans", lp, okb, "the substitution loop ends only when no reference is found" if okb else
+               "the substitution loop of interpolate can end while references remain", construct="while True: ... if not matches: break")
+
     fi = m.func("FlowIR.fill_in")
     ctx.analysed(fi)
     c6 = CFG(fi)
